@@ -21,6 +21,19 @@ struct Op {
     struct Response : public photon::rpc::Message { uint64_t id = 0, y = 0; char fill[N]; PROCESS_FIELDS(id, y, fill); };
 };
 using OpS = Op<8, 1>; using OpM = Op<300, 2>; using OpL = Op<9000, 3>;
+// a response with a variable-length field: the client lends a buffer, the server decides how much of it is used, so a body
+// shorter than the buffer is legitimate -- and a truncated one must not be mistaken for it
+struct OpV {
+    const static uint32_t IID = 0x7e57;
+    const static uint32_t FID = 4;
+    struct Request : public photon::rpc::Message { uint64_t id = 0, x = 0; char fill[8]; PROCESS_FIELDS(id, x, fill); };
+    struct Response : public photon::rpc::Message { uint64_t id = 0, y = 0; photon::rpc::buffer data; PROCESS_FIELDS(id, y, data); };
+};
+inline size_t vlen(uint64_t id) { return 1 + (id * 977 + 13) % 3000; }
+// the untyped call underneath call<Operation>() (what a custom serializer builds on): request and response are plain iovectors
+struct StubAccess : photon::rpc::Stub { using photon::rpc::Stub::do_call; };
+inline int raw_call(Stub* s, FunctionID fn, iovector* req, iovector* resp, Timeout tmo) { return (s->*(&StubAccess::do_call))(fn, req, resp, tmo); }
+static const size_t VCAP = 4096;
 
 inline uint64_t g(uint64_t id, uint64_t x) { return (x * 0x9e3779b97f4a7c15ULL) ^ (id << 17) ^ 0xabcdef; }
 inline char gfill(uint64_t id, int i) { return (char)(id * 31 + i * 7 + 3); }
@@ -31,6 +44,7 @@ struct CallPlan {
     uint64_t pre_us;                   // pause before issuing
     // responder side
     uint64_t delay_us, gap_us;         // before the header / between header and body
+    int pieces = 1; uint64_t piece_gap_us = 0;   // the body is sent in that many pieces, this far apart
     int fate;                          // 0 normal, 1 unknown tag, 2 duplicate response, 3 never answered, 4 wrong size (truncated body),
                                        // 5 unknown tag whose payload happens to contain a well-formed frame addressed to another pending call
     // result
@@ -42,6 +56,8 @@ simstream::Pipe* PIPE;
 Stub* STUB;
 int n_callers, n_calls;
 uint64_t reset_after_resp = ~0ULL; int reset_errno = 0; bool eof_instead = false;
+bool per_wait_timeouts = false;     // SimStream: the stream timeout bounds each wait for bytes instead of the whole read
+bool cut_inside_body = false;       // the connection ends (FIN or reset) strictly inside the body of that response, not between frames
 volatile int calls_done = 0, responder_done = 0;
 std::vector<uint32_t> seg;
 
@@ -84,8 +100,73 @@ void do_call(CallPlan& c) {
     sim::poison(resp, sizeof(*resp), "response buffer of an RPC call that has returned");
 }
 
+void do_call_v(CallPlan& c) {
+    auto* req = new OpV::Request; auto* resp = new OpV::Response;
+    char* buf = (char*)malloc(VCAP);
+    req->id = c.idx; req->x = 0x1000 + c.idx * 7919ULL;
+    for (size_t i = 0; i < sizeof(req->fill); i++) req->fill[i] = (char)(c.idx + i);
+    memset(buf, 0x5A, VCAP); resp->id = ~0ULL; resp->y = 0; resp->data.assign(buf, VCAP);
+    Timeout tmo; if (c.timeout_us) tmo = Timeout(c.timeout_us);
+    sim::note("call %d (caller %d, variable-length response, timeout %llu us) issued", c.idx, c.caller, (unsigned long long)c.timeout_us);
+    errno = 0;
+    int ret = STUB->call<OpV>(*req, *resp, tmo);
+    int en = errno;
+    sim::NoSched ns;
+    c.ret = ret; c.en = en;
+    sim::note("call %d returned %d errno %d", c.idx, ret, ret < 0 ? en : 0);
+    if (ret >= 0) {
+        size_t L = vlen(c.idx);
+        if (resp->id != (uint64_t)c.idx || resp->y != g(c.idx, req->x))
+            HX_VIOL("wrong-response", "call %d reports success but holds the response of request %lld (y=%llx, expected %llx)", c.idx, (long long)resp->id,
+                    (unsigned long long)resp->y, (unsigned long long)g(c.idx, req->x));
+        if (resp->data.size() != L)
+            HX_VIOL("wrong-size", "call %d succeeded (%d bytes) with a %zu-byte payload; the server produced %zu bytes for it", c.idx, ret, resp->data.size(), L);
+        for (size_t i = 0; i < L; i++) if (((char*)resp->data.addr())[i] != gfill(c.idx, i))
+            HX_VIOL("wrong-response", "call %d reports success but byte %zu of its variable-length payload is wrong", c.idx, i);
+        if (c.fate == 3) HX_VIOL("wrong-response", "call %d succeeded although the server never answered it", c.idx);
+        c.ok_data = true; sim::probe("call_ok"); sim::probe("variable_length_call_ok");
+    } else {
+        if (ret != -1) HX_VIOL("result", "call %d returned %d", c.idx, ret);
+        sim::probe(en == ETIMEDOUT ? "call_timed_out" : "call_failed"); sim::probe("nontrivial");
+    }
+    sim::poison(req, sizeof(*req), "request of an RPC call that has returned");
+    sim::poison(resp, sizeof(*resp), "response object of an RPC call that has returned");
+    sim::poison(buf, VCAP, "response buffer of an RPC call that has returned");
+}
+
+void do_call_raw(CallPlan& c) {
+    auto* req = new OpV::Request;
+    char* buf = (char*)malloc(VCAP);
+    req->id = c.idx; req->x = 0x1000 + c.idx * 7919ULL;
+    memset(buf, 0x5A, VCAP);
+    IOVector qv, rv;
+    qv.push_back(req, sizeof(*req)); rv.push_back(buf, VCAP);
+    Timeout tmo; if (c.timeout_us) tmo = Timeout(c.timeout_us);
+    sim::note("call %d (caller %d, untyped call, timeout %llu us) issued", c.idx, c.caller, (unsigned long long)c.timeout_us);
+    errno = 0;
+    int ret = raw_call(STUB, FunctionID(0x7e57, 5), &qv, &rv, tmo);
+    int en = errno;
+    sim::NoSched ns;
+    c.ret = ret; c.en = en;
+    sim::note("call %d returned %d errno %d", c.idx, ret, ret < 0 ? en : 0);
+    if (ret >= 0) {
+        size_t L = c.fate == 4 ? vlen(c.idx) / 2 : vlen(c.idx);      // fate 4: the server itself framed only half of the payload
+        if ((size_t)ret != L) HX_VIOL("wrong-size", "untyped call %d succeeded with %d bytes; the server produced %zu bytes for it", c.idx, ret, L);
+        for (size_t i = 0; i < L; i++) if (buf[i] != gfill(c.idx, i)) HX_VIOL("wrong-response", "untyped call %d reports success but byte %zu of its payload is wrong", c.idx, i);
+        if (c.fate == 3) HX_VIOL("wrong-response", "call %d succeeded although the server never answered it", c.idx);
+        c.ok_data = true; sim::probe("call_ok"); sim::probe("untyped_call_ok");
+    } else {
+        if (ret != -1) HX_VIOL("result", "call %d returned %d", c.idx, ret);
+        sim::probe(en == ETIMEDOUT ? "call_timed_out" : "call_failed"); sim::probe("nontrivial");
+    }
+    sim::poison(req, sizeof(*req), "request of an RPC call that has returned");
+    sim::poison(buf, VCAP, "response buffer of an RPC call that has returned");
+}
+
 void* call_thread(void* arg) {
     CallPlan& c = *(CallPlan*)arg;
+    if (c.kind == 4) do_call_raw(c); else
+    if (c.kind == 3) do_call_v(c); else
     if (c.kind == 0) do_call<OpS>(c); else if (c.kind == 1) do_call<OpM>(c); else do_call<OpL>(c);
     sim::NoSched ns; c.done = 1; calls_done++;
     return nullptr;
@@ -113,6 +194,7 @@ void responder(int) {
     ep.timeout(200);       // poll period of simulated time
     std::string buf;
     bool peer_gone = false;
+    bool conn_dead = false;            // the connection was cut (FIN or reset): nothing more is ever sent
     for (;;) {
         { sim::NoSched ns; if (calls_done == n_calls) break; }
         // 1. pull whatever request bytes are there
@@ -127,24 +209,49 @@ void responder(int) {
             if (buf.size() < sizeof h + h.size) break;
             uint64_t id; memcpy(&id, buf.data() + sizeof h + h.size - sizeof(OpS::Request) + offsetof(OpS::Request, id), 8);   // (id sits at the same place in every kind: fixed body is last)
             // the fixed body is serialized last; find id by kind
-            int kind = h.function.method == 1 ? 0 : h.function.method == 2 ? 1 : 2;
-            size_t rs = kind == 0 ? sizeof(OpS::Request) : kind == 1 ? sizeof(OpM::Request) : sizeof(OpL::Request);
+            int kind = h.function.method == 1 ? 0 : h.function.method == 2 ? 1 : h.function.method == 4 ? 3 : h.function.method == 5 ? 4 : 2;
+            size_t rs = kind == 0 ? sizeof(OpS::Request) : kind == 1 ? sizeof(OpM::Request) : kind >= 3 ? sizeof(OpV::Request) : sizeof(OpL::Request);
             const char* body = buf.data() + sizeof h + h.size - rs;
-            size_t ido = kind == 0 ? offsetof(OpS::Request, id) : kind == 1 ? offsetof(OpM::Request, id) : offsetof(OpL::Request, id);
+            size_t ido = kind == 0 ? offsetof(OpS::Request, id) : kind == 1 ? offsetof(OpM::Request, id) : kind >= 3 ? offsetof(OpV::Request, id) : offsetof(OpL::Request, id);
             memcpy(&id, body + ido, 8);
             if (id < calls.size()) { pend.push_back({photon::now + calls[id].delay_us, (int)id, h.tag, h.function.method}); sim::note("responder: request %d arrived (tag %llu)", (int)id, (unsigned long long)h.tag); }
             buf.erase(0, sizeof h + h.size);
         }
         // 2. answer what is due
         std::sort(pend.begin(), pend.end(), [](const Pending& a, const Pending& b) { return a.at_us < b.at_us; });
+        if (conn_dead) pend.clear();
         while (!pend.empty() && pend.front().at_us <= photon::now) {
             Pending p = pend.front(); pend.erase(pend.begin());
             CallPlan& c = calls[p.idx];
             if (c.fate == 3) { sim::probe("request_never_answered"); continue; }
+            if (answered >= reset_after_resp && cut_inside_body && c.fate == 0) {
+                std::string body;
+                auto fillresp = [&](auto* r) { r->id = p.idx; r->y = g(p.idx, 0x1000 + p.idx * 7919ULL); for (size_t i = 0; i < sizeof(r->fill); i++) r->fill[i] = gfill(p.idx, i); body.assign((const char*)r, sizeof(*r)); };
+                if (c.kind == 4) {
+                    body.assign(vlen(p.idx), 0); for (size_t i = 0; i < body.size(); i++) body[i] = gfill(p.idx, i);
+                } else if (c.kind == 3) {
+                    // serialised by the library's own serializer, as a real server would
+                    std::string payload(vlen(p.idx), 0); for (size_t i = 0; i < payload.size(); i++) payload[i] = gfill(p.idx, i);
+                    OpV::Response r; r.id = p.idx; r.y = g(p.idx, 0x1000 + p.idx * 7919ULL); r.data.assign(payload.data(), payload.size());
+                    SerializerIOV ser; ser.serialize(r);
+                    body.clear(); for (auto& v : ser.iov) body.append((const char*)v.iov_base, v.iov_len);
+                } else if (c.kind == 0) { OpS::Response r; fillresp(&r); } else if (c.kind == 1) { OpM::Response r; fillresp(&r); } else { auto r = new OpL::Response; fillresp(r); delete r; }
+                Header h; h.function = FunctionID(0x7e57, p.fn); h.tag = p.tag; h.size = body.size();
+                size_t part = 1 + sim::rnd(body.size() - 1);
+                ep.timeout(-1ULL);
+                ep.write(&h, sizeof h);
+                if (c.gap_us) thread_usleep(c.gap_us);
+                ep.write(body.data(), part);
+                if (eof_instead) { ep.shutdown(ShutdownHow::Write); sim::fault_fired("server_eof_inside_body"); }
+                else { PIPE->b2a.reset_errno = reset_errno; PIPE->b2a.reset_at = PIPE->b2a.total_written; PIPE->b2a.readable.notify_all(); sim::fault_fired("connection_reset_inside_body"); }
+                ep.timeout(200);
+                sim::note("responder: connection ends after %zu of %zu body bytes of the response to request %d", part, body.size(), p.idx);
+                conn_dead = true; pend.clear(); break;
+            }
             if (answered >= reset_after_resp) {
                 if (eof_instead) { ep.shutdown(ShutdownHow::Write); sim::fault_fired("server_eof"); }
                 else { PIPE->b2a.reset_errno = reset_errno; PIPE->b2a.reset_at = PIPE->b2a.total_read; PIPE->b2a.readable.notify_all(); sim::fault_fired("connection_reset"); }
-                pend.clear(); break;
+                conn_dead = true; pend.clear(); break;
             }
             if (c.fate == 5) {
                 // the server answers under a tag nobody waits for (e.g. a call that gave up long ago), and the payload it returns is
@@ -173,13 +280,30 @@ void responder(int) {
             for (int k = 0; k < copies; k++) {
                 std::string body;
                 auto fillresp = [&](auto* r) { r->id = p.idx; r->y = g(p.idx, 0x1000 + p.idx * 7919ULL); for (size_t i = 0; i < sizeof(r->fill); i++) r->fill[i] = gfill(p.idx, i); body.assign((const char*)r, sizeof(*r)); };
-                if (c.kind == 0) { OpS::Response r; fillresp(&r); } else if (c.kind == 1) { OpM::Response r; fillresp(&r); } else { auto r = new OpL::Response; fillresp(r); delete r; }
+                if (c.kind == 4) {
+                    body.assign(vlen(p.idx), 0); for (size_t i = 0; i < body.size(); i++) body[i] = gfill(p.idx, i);
+                } else if (c.kind == 3) {
+                    // serialised by the library's own serializer, as a real server would
+                    std::string payload(vlen(p.idx), 0); for (size_t i = 0; i < payload.size(); i++) payload[i] = gfill(p.idx, i);
+                    OpV::Response r; r.id = p.idx; r.y = g(p.idx, 0x1000 + p.idx * 7919ULL); r.data.assign(payload.data(), payload.size());
+                    SerializerIOV ser; ser.serialize(r);
+                    body.clear(); for (auto& v : ser.iov) body.append((const char*)v.iov_base, v.iov_len);
+                } else if (c.kind == 0) { OpS::Response r; fillresp(&r); } else if (c.kind == 1) { OpM::Response r; fillresp(&r); } else { auto r = new OpL::Response; fillresp(r); delete r; }
                 Header h; h.function = FunctionID(0x7e57, p.fn); h.tag = (c.fate == 1 || c.fate == 5) ? p.tag + 100000 : p.tag; h.size = body.size();
                 if (c.fate == 4) { h.size = body.size() / 2; body.resize(h.size); sim::fault_fired("short_response_body"); }
                 if (c.fate == 1 || c.fate == 5) sim::fault_fired("unknown_tag"); if (c.fate == 2 && k == 1) sim::fault_fired("duplicate_response");
                 ep.timeout(-1ULL);
                 ep.write(&h, sizeof h);
                 if (c.gap_us) { thread_usleep(c.gap_us); sim::probe("header_body_gap"); }
+                if (c.pieces > 1 && body.size() >= (size_t)c.pieces) {
+                    size_t per = body.size() / c.pieces, off = 0;
+                    for (int q = 0; q < c.pieces; q++) {
+                        size_t n = q == c.pieces - 1 ? body.size() - off : per;
+                        ep.write(body.data() + off, n); off += n;
+                        if (q + 1 < c.pieces) thread_usleep(c.piece_gap_us);
+                    }
+                    sim::probe("body_sent_in_pieces");
+                } else
                 ep.write(body.data(), body.size());
                 ep.timeout(200);
             }
@@ -201,7 +325,7 @@ void harness_run(uint64_t seed) {
     for (int k = 0; k < n_callers; k++) {
         int n = 1 + sim::rnd(5);
         for (int i = 0; i < n; i++) {
-            CallPlan c; c.idx = (int)calls.size(); c.caller = k; c.kind = sim::rnd(6) == 0 ? 2 : (int)sim::rnd(2);
+            CallPlan c; c.idx = (int)calls.size(); c.caller = k; c.kind = sim::rnd(6) == 0 ? 2 : sim::rnd(4) == 0 ? 3 + (int)sim::rnd(2) : (int)sim::rnd(2);
             c.delay_us = D[sim::rnd(8)]; c.gap_us = sim::rnd(3) == 0 ? D[2 + sim::rnd(6)] : 0;
             // deadlines around the scripted delays: before the header, between header and body, after everything
             uint64_t total = c.delay_us + c.gap_us;
@@ -218,7 +342,38 @@ void harness_run(uint64_t seed) {
         }
     }
     n_calls = calls.size();
-    if (hostile == 2) { reset_after_resp = sim::rnd(n_calls + 1); static const int EN[] = {ECONNRESET, EPIPE, EIO}; reset_errno = EN[sim::rnd(3)]; eof_instead = sim::rnd(2); }
+    per_wait_timeouts = sim::rnd(3) == 0;
+    if (sim::rnd(3) == 0 && n_callers >= 3) {
+        // several deadlines inside one response's header|body gap: the reader is blocked in that body while one caller after
+        // another gives up (and signals the others on its way out).  Callers issue their calls one after the other, so the
+        // participants are the first calls of the callers: those are in flight together.
+        std::vector<int> first(n_callers, -1);
+        for (auto& c : calls) if (first[c.caller] < 0) first[c.caller] = c.idx;
+        int vk = sim::rnd(n_callers);
+        CallPlan& V = calls[first[vk]];
+        V.fate = 0; V.pre_us = 0; V.delay_us = D[2 + sim::rnd(4)]; V.gap_us = 1000 + sim::rnd(9000);
+        V.timeout_us = sim::rnd(4) == 0 ? 0 : V.delay_us + 100 + sim::rnd(V.gap_us - 100);
+        uint64_t window = V.gap_us;
+        if (sim::rnd(2)) {
+            // the body itself trickles in: over a stream whose timeout bounds each wait, the reader stays inside the target's buffer
+            // well past the target's own deadline
+            V.pieces = 4 + sim::rnd(7); V.piece_gap_us = 200 + sim::rnd(800); V.gap_us = sim::rnd(50); if (V.kind == 0) V.kind = 1 + sim::rnd(4);
+            window = (V.pieces - 1) * V.piece_gap_us;
+            V.timeout_us = V.delay_us + V.gap_us + V.piece_gap_us + 100 + sim::rnd(window / 2);
+            per_wait_timeouts = true;
+            V.gap_us = std::max<uint64_t>(V.gap_us, 1);
+        }
+        for (int k = 0; k < n_callers; k++) {
+            if (k == vk) continue;
+            CallPlan& c = calls[first[k]];
+            c.pre_us = 0; c.delay_us = V.delay_us + V.gap_us + window + 500 + sim::rnd(3000);      // answered only after V's body
+            c.timeout_us = sim::rnd(5) == 0 ? 0 : V.delay_us + 100 + sim::rnd(std::max<uint64_t>(window, 200) - 100);
+            if (c.fate == 3 && c.timeout_us == 0) c.timeout_us = 5000;
+        }
+        sim::probe("deadline_storm_inside_body_gap");
+    }
+    if (hx::param("force_cut", 0)) { hostile = 2; for (auto& c : calls) { c.kind = 3 + (c.idx & 1); c.fate = 0; } }
+    if (hostile == 2) { cut_inside_body = sim::rnd(2); reset_after_resp = sim::rnd(n_calls + 1); static const int EN[] = {ECONNRESET, EPIPE, EIO}; reset_errno = EN[sim::rnd(3)]; eof_instead = sim::rnd(2); if (hx::param("force_cut", 0)) { cut_inside_body = true; eof_instead = true; } }
     int s = sim::rnd(4);
     if (s == 1) seg = {1}; else if (s == 2) for (int i = 0; i < 6; i++) seg.push_back(1 + sim::rnd(60)); else if (s == 3) for (int i = 0; i < 6; i++) seg.push_back(1 + sim::rnd(5000));
     char plan[300]; snprintf(plan, sizeof plan, "{\"callers\":%d,\"calls\":%d,\"server\":\"%s\",\"reset_after_responses\":%lld,\"segmentation\":%d}", n_callers, n_calls,
@@ -231,7 +386,7 @@ void harness_run(uint64_t seed) {
     for (int k = 0; k < n_callers; k++) W.add(0, [k](int) { caller(k); });
     W.add(0, [](int id) { responder(id); });
     W.vcpu_pre = [](int) {
-        PIPE = new simstream::Pipe; PIPE->b2a.seg = seg;
+        PIPE = new simstream::Pipe; PIPE->b2a.seg = seg; PIPE->a.tmo_per_wait = per_wait_timeouts;
         STUB = new_rpc_stub(&PIPE->a, false);
     };
     W.vcpu_end = [](int) {
